@@ -142,6 +142,19 @@ class Evaluator(Run):
                 s = z3.Concat(s, self.coerce(self.as_seq(v), T.Seq(elem)).z)
         return self.alloc(lt, V(lt.content(), s))
 
+    def ev_Dict(self, node, frame):
+        from . import models
+
+        hint = self.ctx.type_hint(node)
+        if hint is None or hint.kind != "dict":
+            raise Unsupported("dict display without a declared type (line %s)" % node.lineno)
+        d = models.new_dict(self, hint)
+        for k, v in zip(node.keys, node.values):
+            if k is None:
+                raise Unsupported("** in dict display")
+            models.dict_setitem(self, d, self.ev(k, frame), self.ev(v, frame))
+        return d
+
     def ev_JoinedStr(self, node, frame):
         # f-string: concrete parts kept, formatted values become uninterpreted strings of their
         # argument (they only build messages in the functions under contract) unless plain str.
@@ -686,6 +699,19 @@ class Evaluator(Run):
             raise EngineError("cnt() needs a counted list")
         g = self.cell_ghost(lst.z)
         return mk_int(z3.Select(g["cnt"], self.coerce(x, lst.t.elem).z))
+
+    def special_old_ref(self, node, frame):
+        """like old() but keeps references (for identity clauses: `x is old_ref(y)`)"""
+        saved = (self.old_heap, self.spec_env)
+        self.old_heap = self.ctx.entry_heap_for(self)
+        if self.spec_env is not None and "__old_env__" in self.spec_env:
+            e = dict(self.spec_env)
+            e.update(self.spec_env["__old_env__"])
+            self.spec_env = e
+        try:
+            return self.ev(node.args[0], frame)
+        finally:
+            self.old_heap, self.spec_env = saved
 
     def special_implies(self, node, frame):
         a = self.truthy(self.ev(node.args[0], frame))
